@@ -626,6 +626,25 @@ class Prop(fw.PropBase):
                 if w:
                     cur, best, changed = t, w, True
                     break
+        # drop contigs that carry no record (one at a time; indices of the others shift)
+        changed = True
+        while changed and budget > 0 and len(cur['contigs']) > 1:
+            changed = False
+            used = set(r['t'] for r in cur['records']) | set(r['nt'] for r in cur['records'])
+            for i in range(len(cur['contigs'])):
+                if i in used or budget <= 0:
+                    continue
+                budget -= 1
+                recs = [json.loads(json.dumps(r)) for r in cur['records']]
+                for r in recs:
+                    for k in ('t', 'nt'):
+                        if r[k] > i:
+                            r[k] -= 1
+                t = {'contigs': cur['contigs'][:i] + cur['contigs'][i + 1:], 'records': recs}
+                w = run(t)
+                if w:
+                    cur, best, changed = t, w, True
+                    break
         return cur, best
 
     def search(self):
